@@ -744,6 +744,49 @@ impl<'a, 'e, 'ast> Visit<'ast> for Rewriter<'a, 'e> {
         }
         syn::visit::visit_expr_call(self, c);
     }
+    fn visit_expr_closure(&mut self, c: &'ast syn::ExprClosure) {
+        // R32: a closure parameter that is a PATTERN (`|(n, _)|`, `|&v|`) is bound to a fresh variable and destructured inside:
+        //      |P, Q| BODY  ->  |shim_c0, shim_c1| { let P = shim_c0; let Q = shim_c1; BODY }      (Verus wants plain variables)
+        fn plain(p: &syn::Pat) -> bool {
+            match p {
+                syn::Pat::Ident(pi) => pi.by_ref.is_none() && pi.subpat.is_none(),
+                syn::Pat::Wild(_) => true,
+                syn::Pat::Type(t) => plain(&t.pat),
+                _ => false,
+            }
+        }
+        let (a, b) = self.src.range(c.span());
+        let already = self.ed.edits.iter().any(|e| e.start == a && e.end == b);
+        if !already && c.inputs.iter().any(|p| !plain(p)) && c.capture.is_none() && c.asyncness.is_none() {
+            let mut pieces = vec![Self::lit("|")];
+            let mut lets: Vec<Piece> = vec![];
+            for (i, p) in c.inputs.iter().enumerate() {
+                if i > 0 { pieces.push(Self::lit(", ")); }
+                if plain(p) {
+                    pieces.push(self.sub(p.span()));
+                } else {
+                    pieces.push(Self::lit(&format!("shim_c{}", i)));
+                    let pat: &syn::Pat = if let syn::Pat::Type(t) = p {
+                        pieces.push(Self::lit(": "));
+                        pieces.push(self.sub(t.ty.span()));
+                        &t.pat
+                    } else { p };
+                    lets.push(Self::lit("let "));
+                    lets.push(self.sub(pat.span()));
+                    lets.push(Self::lit(&format!(" = shim_c{}; ", i)));
+                }
+            }
+            pieces.push(Self::lit("| "));
+            if let syn::ReturnType::Type(_, ty) = &c.output { pieces.push(Self::lit("-> ")); pieces.push(self.sub(ty.span())); pieces.push(Self::lit(" ")); }
+            pieces.push(Self::lit("{ "));
+            pieces.extend(lets);
+            pieces.push(self.sub(c.body.span()));
+            pieces.push(Self::lit(" }"));
+            self.ed.replace(a, b, pieces, "R32");
+            self.fire("R32");
+        }
+        syn::visit::visit_expr_closure(self, c);
+    }
     fn visit_expr_binary(&mut self, b: &'ast syn::ExprBinary) {
         // R25: X == "lit" / X != "lit"  ->  (X).shim_eq("lit") / !(X).shim_eq("lit")
         //      (`String == &str` / `&str == &str` go through std PartialEq impls without a Verus spec; routed through one trait)
